@@ -459,6 +459,15 @@ class Seq(object):
       nref = sum(1 for e in ents if e['outcome'] == 'refused')
       if drops != nref:
         self.viol('counter/fullQueueDrops', '%s: fullQueueDrops %d but %d refusals observed' % (key, drops, nref))
+    # the "no destination available" buffer: accepted = still buffered + re-injected
+    if not self.stopped:
+      ff = self.fmap[None]
+      rest = Counter(e['id'] for e in self.entries['fake'] if e['outcome'] == 'accepted')
+      rest.subtract(Counter(int(x[1][0]) for x in ff.queue))
+      rest.subtract(Counter(self.reinjected['fake']))
+      missing = sorted(i for i, n in rest.items() if n > 0)
+      if missing:
+        self.viol('conservation/buffer-lost', 'ids %r were buffered while no destination was available and are neither buffered nor re-injected any more' % missing)
     self.counters['writes_decoded'] = sum(len(self.written(d)) for d in self.dests)
 
   # ---------------------------------------------------------------------------- quiescence (C09 relay side)
